@@ -187,6 +187,18 @@ func HarnessC13Batch() {
 	if len(resp.Results) != n {
 		return
 	}
+	// a later request must not change a response already handed out (gRPC serialises it after
+	// the handler has returned)
+	if n > 0 {
+		other := &proto.QueryRequest{Queries: []*proto.Query{{Expr: pEq("b", "q"), Id: 77}, {Expr: pNot(pEq("b", "q")), Id: 78}}}
+		if _, err := s.Query(context.Background(), other); err != nil {
+			panic(err)
+		}
+		verifAssert(len(resp.Results) == n, "C13: a response changed after the handler returned (a later request reused it)")
+		if len(resp.Results) != n {
+			return
+		}
+	}
 	for i, q := range picked {
 		want, err := idx.Execute(q.lib)
 		if err != nil {
